@@ -174,6 +174,16 @@ def shapes():
     add('Plain', lambda x: V.Plain(a=x, b=[x], c='s'))
     add('Slots', lambda x: V.Slots(x, {'k': x}))
     add('SlotsDict', lambda x: V.SlotsDict(x, extra=x))
+    # slots and instance dict in every combination of "set" and "empty"
+    add('SlotsDict-slot-only', lambda x: V.SlotsDict(x))
+    add('SlotsDict-dict-only', lambda x: _del(V.SlotsDict(None, extra=x), 'x'))
+    add('SlotsDict-empty', lambda x: _del(V.SlotsDict(), 'x'), False)
+    add('SlotsSubDict-slot-only', lambda x: _set(V.SlotsSubDict(), x=x))
+    add('SlotsSubDict-both', lambda x: _set(V.SlotsSubDict(), x=x, extra=[x]))
+    add('SlotsSubDict-dict-only', lambda x: _set(V.SlotsSubDict(), extra=x))
+    add('SlotsSubSlots', lambda x: _set(V.SlotsSubSlots(), x=x, y=[x]))
+    add('SlotsSubSlots-base-only', lambda x: _set(V.SlotsSubSlots(), x=x))
+    add('SlotsUnset', lambda x: _set(V.SlotsUnset(), y=x))
     add('StateDict', lambda x: V.StateDict(x, (1, x)))
     add('StateTuple', lambda x: V.StateTuple(x, 'b'))
     add('StateFalsy', lambda x: V.StateFalsy(), False)
@@ -225,6 +235,11 @@ def _set(o, **kw):
 def _setitems(o, pairs):
     for k, v in pairs:
         o[k] = v
+    return o
+
+
+def _del(o, name):
+    delattr(o, name)
     return o
 
 
